@@ -14,6 +14,9 @@ Facts (each one is the presence / order of statements, checked on comment-stripp
   unmarshalAccounts    unmarshal LB_THREADED_ABSTRACT: new table entry takes over the in-transit reference, else decref
   unmarshalKnownTestIsAbsent  ... and "new" means the key is absent (janet_checktype(check, JANET_NIL)), not "value is false"
   sweepDecrefFrees     gc sweep: unvisited threaded abstract -> decref, finalize+free at 0, entry removed
+  chanDeinitDecrefsUndelivered  janet_chan_deinit hands every undelivered item to janet_chan_unpack(.., 1) = DECREF unmarshal,
+                       whose LB_THREADED_ABSTRACT case gives the in-transit reference back (no table entry)
+  decrefCleanupFreesAtZero  ... and finalizes + frees the object when that decrement reaches 0
   completionAfterBody  janet_thread_body: subr(msg) is evaluated before the completion record is written to the pipe
 plus lock-discipline counts (critical sections are atomic steps in the model): any change there is an ExtractError
 (= broken tie; the check then searches harder on the implementation)."""
@@ -214,6 +217,30 @@ def extract(tree):
     # the "already registered?" test must be the ABSENCE of the key: entries hold `false` between mark phases
     mg = re.search(r"Janet\s+(\w+)\s*=\s*janet_table_get\s*\(\s*&janet_vm\.threaded_abstracts\s*,\s*\*out\s*\)\s*;", ub)
     flags["unmarshalKnownTestIsAbsent"] = bool(mg and re.search(r"if\s*\(\s*janet_checktype\s*\(\s*%s\s*,\s*JANET_NIL\s*\)\s*\)\s*\{[^}]*janet_table_put" % mg.group(1), ub, re.S))
+    # ---- undelivered items of a collected thread channel (Model.lean `RAct.discard`):
+    # janet_chan_deinit pops every item and hands it to janet_chan_unpack(.., is_cleanup = 1); janet_chan_unpack passes
+    # JANET_MARSHAL_DECREF when is_cleanup (checked below as part of unpackUsesUnmarshalUnsafe's pattern, repeated here);
+    # the DECREF branch of the LB_THREADED_ABSTRACT case decrements u.ptr and creates no table entry
+    dei = func_body(ev, "janet_chan_deinit")
+    mloop = re.search(r"while\s*\(\s*!\s*janet_q_pop\s*\(\s*&chan->items\s*,\s*&(\w+)\s*,\s*sizeof\s*\(\s*\1\s*\)\s*\)\s*\)\s*\{", dei)
+    loop_ok = False
+    if mloop:
+        lb = dei[mloop.end() - 1:match_brace(dei, mloop.end() - 1)]
+        stmts = [x.strip() for x in lb.strip()[1:-1].split(";") if x.strip()]
+        # exactly: (optionally a (void) cast of the result) janet_chan_unpack(chan, &item, 1)
+        loop_ok = len(stmts) == 1 and bool(re.fullmatch(r"(?:\(\s*void\s*\)\s*)?janet_chan_unpack\s*\(\s*chan\s*,\s*&%s\s*,\s*1\s*\)" % mloop.group(1), stmts[0]))
+    upk = func_body(ev, "janet_chan_unpack")
+    cleanup_flag = bool(re.search(r"is_cleanup\s*\?\s*\(\s*JANET_MARSHAL_UNSAFE\s*\|\s*JANET_MARSHAL_DECREF\s*\)\s*:\s*JANET_MARSHAL_UNSAFE", upk)
+                        and re.search(r"janet_unmarshal\s*\(\s*buf->data\s*,\s*buf->count\s*,\s*flags\s*,", upk))
+    mdec = re.search(r"if\s*\(\s*flags\s*&\s*JANET_MARSHAL_DECREF\s*\)\s*\{", ub)
+    dec_branch = ub[mdec.end() - 1:match_brace(ub, mdec.end() - 1)] if mdec else ""
+    n_dec = len(re.findall(r"janet_abstract_decref\s*\(\s*u\.ptr\s*\)", dec_branch))
+    flags["chanDeinitDecrefsUndelivered"] = bool(loop_ok and cleanup_flag and n_dec == 1 and "janet_table_put" not in dec_branch
+                                                 and re.search(r"\*out\s*=\s*janet_wrap_nil\s*\(\s*\)\s*;", dec_branch))
+    # ... and finalizes + frees when that decrement reaches 0 (as the sweep does)
+    mz = re.search(r"if\s*\(\s*(?:0\s*==\s*janet_abstract_decref\s*\(\s*u\.ptr\s*\)|janet_abstract_decref\s*\(\s*u\.ptr\s*\)\s*==\s*0|!\s*janet_abstract_decref\s*\(\s*u\.ptr\s*\))\s*\)\s*\{", dec_branch)
+    zb = dec_branch[mz.end() - 1:match_brace(dec_branch, mz.end() - 1)] if mz else ""
+    flags["decrefCleanupFreesAtZero"] = bool(mz and re.search(r"->type->gc\s*\(", zb) and re.search(r"janet_free\s*\(", zb))
     # ---- run queue / wait discipline (Session 3: Model.lean `take`, `runTask`, `resume`, `handle`)
     popf = _corefn_body(ev, "cfun_channel_pop")
     flags["takeSchedulesSelf"] = bool(re.search(
